@@ -189,7 +189,7 @@ void adapter_exec(Ev *ev)
     }
     if (ev_is(ev, "sweep32")) {
         long long bad = 0, first = -1;
-        for (uint64_t v = (uint64_t)ev->a[0]; v < (uint64_t)ev->a[1]; v += (uint64_t)(ev->na > 2 ? ev->a[2] : 1))
+        for (uint64_t v = (uint64_t)ev->a[0], kk = 0; v < (uint64_t)ev->a[1]; v += (uint64_t)(ev->na > 2 ? ev->a[2] : 1), ((++kk & 0xfff) == 0 ? driver_kick() : (void)0))
             if (check_value(32, v)) { if (!bad) first = (long long)v; bad++; }
         obs(ev, bad); obs(ev, first);
         return;
@@ -198,6 +198,7 @@ void adapter_exec(Ev *ev)
         uint64_t x = (uint64_t)ev->a[0] * 0x9E3779B97F4A7C15ull + 1;
         long long bad = 0;
         for (long long i = 0; i < ev->a[1]; i++) {
+            if ((i & 0xfff) == 0) driver_kick();
             x ^= x << 13; x ^= x >> 7; x ^= x << 17;
             uint64_t v = x >> (x % 64);   /* all magnitudes */
             if (check_value(64, v)) bad++;
